@@ -17,12 +17,13 @@ func init() {
 	register(&Property{
 		ID:        "C41",
 		Title:     "Flow offload never bypasses endpoints that need per-packet processing",
-		Technique: "static analysis: sibling field-gate parity between the chain renderer and the exclusion predicate, mutation/dirty pairing, provenance of the IP-set members, builder-chain facts of the offload rule (go/ssa + AST over felix/rules and felix/dataplane/linux)",
+		Technique: "static analysis: sibling field-gate parity between the chain renderer and the exclusion predicate with an all-paths independence walk of each disjunct, needs-edge/store post-dominance (refresh), mutation/dirty pairing, provenance of the IP-set members, builder-chain facts of the offload rule (go/ssa + AST over felix/rules and felix/dataplane/linux)",
 		DesignRef: "DESIGN.md §3 C41",
-		Explanation: "Decides: (parity) the QoSControls fields whose non-zero value makes felix/rules emit per-packet rules are exactly the fields whose non-zero value makes workloadNeedsForwardHooks return true, DSCP (QosPolicies non-empty) makes it return true, and the workload/host stores into the exclusion maps are guarded by those predicates; " +
+		Explanation: "Decides: (parity) the QoSControls fields whose non-zero value makes felix/rules emit per-packet rules are exactly the fields whose non-zero value makes workloadNeedsForwardHooks return true, DSCP (QosPolicies non-empty) makes it return true, and the workload/host stores into the exclusion maps are guarded by those predicates; each of those triggers makes the predicate true on every path from its entry whatever the other inputs are (only nil tests of the pointers the trigger itself is read through may return false first), i.e. no feature is consulted only under some value of another; " +
+			"(refresh) once an update is found to need exclusion, every path to the return rewrites (or deletes) the endpoint's entry in the exclusion map — the store never depends on the key being absent, so an excluded endpoint's changed/added address reaches the set; " +
 			"(dirty) every mutation of the exclusion maps is followed by dirty=true; (members) the members written to the IP set are built from every exclusion map of the manager, each holding the endpoint's addresses of the manager's IP version; " +
 			"(rule) FlowOffload() is the action of exactly one rule literal, whose match requires an established/related conntrack state only and excludes source and destination in the set named from IPSetIDNoFlowOffload, the SetID the exclusion manager writes.",
-		NotDecided: "The contents of the set after a history; that a removed/changed address leaves the set (follows from replacing the whole set, not checked beyond `members`); the kernel's flowtable semantics; bandwidth QoS (deliberately not excluded); whether the manager is registered when offload is enabled.",
+		NotDecided: "The contents of the set after a history; a skip of the store on a branch computed from the message's own address fields (e.g. `unchanged` comparison) is accepted without checking the comparison; that a removed/changed address leaves the set (follows from replacing the whole set, not checked beyond `members`); the kernel's flowtable semantics; bandwidth QoS (deliberately not excluded); whether the manager is registered when offload is enabled.",
 		Assumptions: []string{
 			"go/types + go/ssa (x/tools v0.50.0) model of the current source, CGO_ENABLED=0 build",
 			"AddOrReplaceIPSet replaces the whole member list",
@@ -38,6 +39,16 @@ func init() {
 				Old: "\tif len(wep.QosPolicies) > 0 {\n\t\treturn true\n\t}\n", New: "", Expect: "C41.parity/WorkloadEndpoint.QosPolicies"},
 			{Name: "host endpoint stored regardless of DSCP", File: "felix/dataplane/linux/flowtable_mgr.go",
 				Old: "\t\tif len(msg.Endpoint.QosPolicies) == 0 {\n\t\t\tm.removeHost(id)\n\t\t\treturn\n\t\t}\n", New: "\t\tif len(msg.Endpoint.QosPolicies) == 0 {\n\t\t\tm.removeHost(id)\n\t\t}\n", Expect: "C41.parity/store/hepIPs"},
+			{Name: "DSCP consulted only when QosControls is nil", File: "felix/dataplane/linux/flowtable_mgr.go",
+				Old: "\tif len(wep.QosPolicies) > 0 {\n\t\treturn true\n\t}\n\tqos := wep.QosControls\n\tif qos == nil {\n\t\treturn false\n\t}\n", New: "\tqos := wep.QosControls\n\tif qos == nil {\n\t\treturn len(wep.QosPolicies) > 0\n\t}\n", Expect: "C41.parity/independent/WorkloadEndpoint.QosPolicies"},
+			{Name: "nil QosControls short-circuits before the DSCP test", File: "felix/dataplane/linux/flowtable_mgr.go",
+				Old: "\tif len(wep.QosPolicies) > 0 {\n\t\treturn true\n\t}\n\tqos := wep.QosControls\n\tif qos == nil {\n\t\treturn false\n\t}\n", New: "\tqos := wep.QosControls\n\tif qos == nil {\n\t\treturn false\n\t}\n\tif len(wep.QosPolicies) > 0 {\n\t\treturn true\n\t}\n", Expect: "C41.parity/independent/WorkloadEndpoint.QosPolicies"},
+			{Name: "egress packet rate consulted only when an ingress rate is set", File: "felix/dataplane/linux/flowtable_mgr.go",
+				Old: "\treturn qos.IngressMaxConnections != 0 || qos.EgressMaxConnections != 0 ||\n\t\tqos.IngressPacketRate != 0 || qos.EgressPacketRate != 0\n", New: "\tif qos.IngressMaxConnections != 0 || qos.EgressMaxConnections != 0 {\n\t\treturn true\n\t}\n\tif qos.IngressPacketRate == 0 {\n\t\treturn false\n\t}\n\treturn qos.IngressPacketRate != 0 || qos.EgressPacketRate != 0\n", Expect: "C41.parity/independent/QoSControls.EgressPacketRate"},
+			{Name: "already-excluded workload keeps its first addresses", File: "felix/dataplane/linux/flowtable_mgr.go",
+				Old: "\t\tnets := msg.Endpoint.Ipv4Nets\n", New: "\t\tif _, exists := m.wepIPs[id]; exists {\n\t\t\treturn\n\t\t}\n\t\tnets := msg.Endpoint.Ipv4Nets\n", Expect: "C41.refresh/flowtableExclusionManager.OnUpdate/wepIPs"},
+			{Name: "host endpoint addresses stored only on first exclusion", File: "felix/dataplane/linux/flowtable_mgr.go",
+				Old: "\t\tm.hepIPs[id] = stripSubnetMasks(ips)\n\t\tm.dirty = true\n", New: "\t\tif _, exists := m.hepIPs[id]; !exists {\n\t\t\tm.hepIPs[id] = stripSubnetMasks(ips)\n\t\t\tm.dirty = true\n\t\t}\n", Expect: "C41.refresh/flowtableExclusionManager.OnUpdate/hepIPs"},
 			{Name: "workload address change not flushed", File: "felix/dataplane/linux/flowtable_mgr.go",
 				Old: "\t\tm.wepIPs[id] = stripSubnetMasks(nets)\n\t\tm.dirty = true\n", New: "\t\tm.wepIPs[id] = stripSubnetMasks(nets)\n", Expect: "C41.dirty/"},
 			{Name: "host endpoints left out of the set", File: "felix/dataplane/linux/flowtable_mgr.go",
@@ -74,12 +85,14 @@ func runC41(c *Ctx) {
 	if x.qos == nil || x.mgr == nil {
 		c.Lost("proto.QoSControls / flowtableExclusionManager")
 	}
-	c.Rule("C41.parity", "E-FIELDS/E-GUARD", "QoSControls fields gating per-packet rules in felix/rules == fields making workloadNeedsForwardHooks true; QosPolicies non-empty ⇒ true; stores into the exclusion maps guarded by the predicates", 7)
+	c.Rule("C41.parity", "E-FIELDS/E-GUARD", "QoSControls fields gating per-packet rules in felix/rules == fields making workloadNeedsForwardHooks true; QosPolicies non-empty ⇒ true; stores into the exclusion maps guarded by the predicates; each trigger makes the predicate true whatever the other inputs are (independent disjuncts)", 12)
+	c.Rule("C41.refresh", "E-PAIR", "from every branch edge that establishes `needs per-packet processing`, every path to a return overwrites (or deletes) the endpoint's entry in the exclusion map: the stored addresses never depend on the key's previous presence", 2)
 	c.Rule("C41.dirty", "E-PAIR", "every store into / delete from an exclusion map of flowtableExclusionManager is followed on every path by dirty=true", 4)
 	c.Rule("C41.members", "E-FLOW", "AddOrReplaceIPSet members are appended from every exclusion map; each map is filled from the endpoint's v4 address field, or the v6 field exactly under ipVersion==6", 4)
 	c.Rule("C41.rule", "E-OWN/E-CONST", "FlowOffload() is the action of one rule literal whose match is ConntrackState(⊆{RELATED,ESTABLISHED}∋ESTABLISHED).NotSourceIPSet(x).NotDestIPSet(x), x = NameForMainIPSet(IPSetIDNoFlowOffload); the exclusion manager's SetID is IPSetIDNoFlowOffload", 5)
 
 	x.parity()
+	x.refresh()
 	x.dirty()
 	x.members()
 	x.rule()
@@ -207,6 +220,30 @@ func c41ImpliesTrue(fn *ssa.Function, cond ssa.Value, pol bool) bool {
 				}
 				return walk(b.Succs[1], b, e, onStack)
 			}
+			// a branch on a bool assembled earlier (`x := a || b; if x || c`): its
+			// value on this path may be fixed by the phi edge taken
+			if phi, ok := cc.(*ssa.Phi); ok {
+				if from, have := e[phi.Block()]; have {
+					for i, pb := range phi.Block().Preds {
+						if pb != from {
+							continue
+						}
+						ev, evPol := stripNot(phi.Edges[i], cp)
+						val, known := false, false
+						if ev == cond {
+							val, known = pol == evPol, true
+						} else if cv, ok := constOf(ev); ok && (cv.ExactString() == "true" || cv.ExactString() == "false") {
+							val, known = (cv.ExactString() == "true") == evPol, true
+						}
+						if known {
+							if val {
+								return walk(b.Succs[0], b, e, onStack)
+							}
+							return walk(b.Succs[1], b, e, onStack)
+						}
+					}
+				}
+			}
 			return walk(b.Succs[0], b, e, onStack) && walk(b.Succs[1], b, e, onStack)
 		case *ssa.Jump:
 			return walk(b.Succs[0], b, e, onStack)
@@ -284,6 +321,8 @@ func (x *c41) parity() {
 	// fields making the predicate true
 	need := map[string]bool{}
 	seenCmp := map[string]bool{}
+	indep := map[string]bool{}
+	indepWhy := map[string]string{}
 	allInstrs(hooks, false, func(_ *ssa.Function, in ssa.Instruction) {
 		v, ok := in.(ssa.Value)
 		if !ok {
@@ -293,6 +332,15 @@ func (x *c41) parity() {
 			seenCmp[fld.Name()] = true
 			if c41ImpliesTrue(hooks, v, nz) {
 				need[fld.Name()] = true
+				if ok, why := c41ForcesTrue(hooks, v, nz, func(o ssa.Value) (bool, bool) {
+					// another evaluation of the same field's zero test
+					f2, nz2 := c41ZeroCmpField(o, x.qos)
+					return nz2, f2 == fld
+				}); ok {
+					indep[fld.Name()] = true
+				} else {
+					indepWhy[fld.Name()] = why
+				}
 			}
 		}
 	})
@@ -300,6 +348,11 @@ func (x *c41) parity() {
 		c.Check(need[f], "C41.parity/QoSControls."+f, p.Pos(gate[f].Pos()),
 			"non-zero "+f+" renders per-packet rules and makes workloadNeedsForwardHooks true",
 			"felix/rules renders per-packet rules when QoSControls."+f+" != 0, but workloadNeedsForwardHooks does not return true for it: such a workload's established flows are offloaded and bypass the rules")
+		if need[f] {
+			c.Check(indep[f], "C41.parity/independent/QoSControls."+f, p.Pos(hooks.Pos()),
+				"non-zero "+f+" makes workloadNeedsForwardHooks true whatever the other inputs are",
+				"workloadNeedsForwardHooks consults QoSControls."+f+" only on some paths: "+indepWhy[f]+" — a workload with "+f+" != 0 and that combination of the other features is offloaded past its per-packet rules")
+		}
 	}
 	for _, f := range sortedKeys(seenCmp) {
 		if gate[f] == nil {
@@ -312,17 +365,31 @@ func (x *c41) parity() {
 	if qp == nil || hqp == nil {
 		c.Lost("proto.{Workload,Host}Endpoint.QosPolicies")
 	}
-	dscp := false
+	dscp, dscpIndep, dscpWhy := false, false, ""
 	allInstrs(hooks, false, func(_ *ssa.Function, in ssa.Instruction) {
 		if v, ok := in.(ssa.Value); ok {
 			if is, ne := c41LenCmp(v, qp); is && c41ImpliesTrue(hooks, v, ne) {
 				dscp = true
+				if ok, why := c41ForcesTrue(hooks, v, ne, func(o ssa.Value) (bool, bool) {
+					is2, ne2 := c41LenCmp(o, qp)
+					return ne2, is2
+				}); ok {
+					dscpIndep = true
+				} else {
+					dscpWhy = why
+				}
 			}
 		}
 	})
 	c.Check(dscp, "C41.parity/WorkloadEndpoint.QosPolicies", p.Pos(hooks.Pos()), "a workload with QosPolicies (DSCP) needs the forward hooks",
 		"workloadNeedsForwardHooks does not return true for a workload with non-empty QosPolicies: DSCP-marked workloads would be offloaded past the mangle rules")
+	if dscp {
+		c.Check(dscpIndep, "C41.parity/independent/WorkloadEndpoint.QosPolicies", p.Pos(hooks.Pos()),
+			"non-empty QosPolicies makes workloadNeedsForwardHooks true whatever the other inputs are",
+			"workloadNeedsForwardHooks consults QosPolicies only on some paths: "+dscpWhy+" — a DSCP-marked workload with that combination of the other features is offloaded past the mangle rules")
+	}
 	// stores guarded by the predicates
+	needs := x.needsPred()
 	for _, fld := range x.mapFields() {
 		n := 0
 		for _, f := range withClosures(p.methodsOf(c44Pkg, "flowtableExclusionManager")) {
@@ -333,15 +400,7 @@ func (x *c41) parity() {
 				}
 				n++
 				key := "C41.parity/store/" + fld.Name()
-				g := guardedCut(mu, func(cond ssa.Value, pol bool) bool {
-					if cs, ok := condCall(cond); ok && calleeFn(cs.Common()) == hooks {
-						return pol
-					}
-					if is, ne := c41LenCmp(cond, hqp); is {
-						return pol == ne
-					}
-					return false
-				})
+				g := guardedCut(mu, needs)
 				c.Check(g, key, p.Pos(mu.Pos()), "endpoint stored only when it needs per-packet processing",
 					"store into "+fld.Name()+" is reachable for an endpoint that needs no per-packet processing (neither workloadNeedsForwardHooks nor non-empty host QosPolicies holds): the set is not exact")
 			})
@@ -350,6 +409,356 @@ func (x *c41) parity() {
 			c.Lost("no store into %s", fld.Name())
 		}
 	}
+}
+
+// needsPred accepts the If edges on which "this endpoint needs per-packet
+// processing" is established: workloadNeedsForwardHooks(..) returned true, or the
+// host endpoint's QosPolicies is non-empty.
+func (x *c41) needsPred() EdgePred {
+	hooks := x.p.Func(c44Pkg, "workloadNeedsForwardHooks")
+	hqp, _ := x.p.LookupExt("felix/proto", "HostEndpoint.QosPolicies").(*types.Var)
+	if hooks == nil || hqp == nil {
+		x.c.Lost("workloadNeedsForwardHooks / proto.HostEndpoint.QosPolicies")
+	}
+	return func(cond ssa.Value, pol bool) bool {
+		if cs, ok := condCall(cond); ok && calleeFn(cs.Common()) == hooks {
+			return pol
+		}
+		if is, ne := c41LenCmp(cond, hqp); is {
+			return pol == ne
+		}
+		return false
+	}
+}
+
+// c41ForcesTrue: in the bool function fn, does `cond has truth value pol` force
+// the result true WHATEVER the other inputs are?  Walks every path from the
+// entry: branches whose outcome is fixed by cond follow that outcome, nil tests
+// of the pointers dereferenced to evaluate cond follow the non-nil edge (cond
+// having a value presupposes them), every other branch is followed both ways;
+// every return reached must yield true.  A path that returns without ever
+// consulting cond (cond tested only under some value of another input) fails.
+// same(v) recognises other evaluations of the same test and gives their truth
+// value under the assumed fact.
+func c41ForcesTrue(fn *ssa.Function, cond ssa.Value, pol bool, same func(ssa.Value) (bool, bool)) (bool, string) {
+	// pointers cond's operand is reached through
+	baseVals := map[ssa.Value]bool{}
+	basePaths := map[string]bool{}
+	c44BackSlice(cond, func(v ssa.Value) {
+		var b ssa.Value
+		switch y := v.(type) {
+		case *ssa.FieldAddr:
+			b = y.X
+		case *ssa.Field:
+			b = y.X
+		}
+		if b != nil {
+			if _, ok := b.Type().Underlying().(*types.Pointer); ok {
+				baseVals[b] = true
+				basePaths[path(b)] = true
+			}
+		}
+	})
+	isBase := func(v ssa.Value) bool { return baseVals[v] || basePaths[path(v)] }
+	type env map[*ssa.BasicBlock]*ssa.BasicBlock
+	var known func(v ssa.Value, e env, d int) (bool, bool)
+	known = func(v ssa.Value, e env, d int) (bool, bool) {
+		if d > 8 {
+			return false, false
+		}
+		if v == cond {
+			return pol, true
+		}
+		if same != nil {
+			if val, ok := same(v); ok {
+				return val, true
+			}
+		}
+		if cv, ok := constOf(v); ok {
+			switch cv.ExactString() {
+			case "true":
+				return true, true
+			case "false":
+				return false, true
+			}
+			return false, false
+		}
+		if u, ok := v.(*ssa.UnOp); ok && u.Op == token.NOT {
+			val, ok := known(u.X, e, d+1)
+			return !val, ok
+		}
+		if phi, ok := v.(*ssa.Phi); ok {
+			from, have := e[phi.Block()]
+			if !have {
+				return false, false
+			}
+			for i, pb := range phi.Block().Preds {
+				if pb == from {
+					return known(phi.Edges[i], e, d+1)
+				}
+			}
+		}
+		return false, false
+	}
+	// nilEdge: on edge k of If t the tested base pointer is nil
+	nilEdge := func(t *ssa.If, k int) bool {
+		cc, p := stripNot(t.Cond, k == 0)
+		bo, ok := cc.(*ssa.BinOp)
+		if !ok || (bo.Op != token.EQL && bo.Op != token.NEQ) {
+			return false
+		}
+		var other ssa.Value
+		switch {
+		case isNilConst(bo.X):
+			other = bo.Y
+		case isNilConst(bo.Y):
+			other = bo.X
+		default:
+			return false
+		}
+		if !isBase(other) {
+			return false
+		}
+		return (bo.Op == token.EQL) == p
+	}
+	why := ""
+	steps := 0
+	var walk func(b, from *ssa.BasicBlock, e env, onStack map[*ssa.BasicBlock]bool, trail []string) bool
+	walk = func(b, from *ssa.BasicBlock, e env, onStack map[*ssa.BasicBlock]bool, trail []string) bool {
+		steps++
+		if steps > 200000 || onStack[b] {
+			why = "the predicate has a loop / too many paths (not decided)"
+			return false
+		}
+		if isPanicBlock(b) {
+			return true
+		}
+		onStack[b] = true
+		defer delete(onStack, b)
+		old, had := e[b]
+		e[b] = from
+		defer func() {
+			if had {
+				e[b] = old
+			} else {
+				delete(e, b)
+			}
+		}()
+		if len(b.Instrs) == 0 {
+			return false
+		}
+		switch t := b.Instrs[len(b.Instrs)-1].(type) {
+		case *ssa.Return:
+			if len(t.Results) == 1 {
+				if val, ok := known(t.Results[0], e, 0); ok && val {
+					return true
+				}
+			}
+			desc := "unconditionally"
+			if len(trail) > 0 {
+				desc = "when " + strings.Join(trail, " and ")
+			}
+			res := "<none>"
+			if len(t.Results) == 1 {
+				res = path(t.Results[0])
+			}
+			why = fmt.Sprintf("it returns %s %s without the result being forced true", res, desc)
+			return false
+		case *ssa.If:
+			if val, ok := known(t.Cond, e, 0); ok {
+				k := 1
+				if val {
+					k = 0
+				}
+				return walk(b.Succs[k], b, e, onStack, trail)
+			}
+			for k := 0; k < 2; k++ {
+				if nilEdge(t, k) {
+					continue
+				}
+				cc, p := stripNot(t.Cond, k == 0)
+				tr := trail
+				if !nilEdge(t, 1-k) {
+					tr = append(append([]string{}, trail...), fmt.Sprintf("%s is %v", path(cc), p))
+				}
+				if !walk(b.Succs[k], b, e, onStack, tr) {
+					return false
+				}
+			}
+			return true
+		case *ssa.Jump:
+			return walk(b.Succs[0], b, e, onStack, trail)
+		}
+		why = "unexpected control flow (not decided)"
+		return false
+	}
+	if len(fn.Blocks) == 0 {
+		return false, "no body"
+	}
+	ok := walk(fn.Blocks[0], nil, env{}, map[*ssa.BasicBlock]bool{}, nil)
+	return ok, why
+}
+
+// refresh: once an update has established that the endpoint needs per-packet
+// processing, its entry in the exclusion map is rewritten from that update on
+// every path — never skipped because the key is already present.  Decided per
+// function holding a store into an exclusion map: from every If edge accepted by
+// needsPred from which such a store is reachable, every path to a return crosses
+// a store into / delete from that map (directly or in a callee), or a branch
+// whose condition is computed from the very address fields being stored
+// (comparison with the current addresses; not decided further).
+func (x *c41) refresh() {
+	c, p := x.c, x.p
+	needs := x.needsPred()
+	for _, fld := range x.mapFields() {
+		n := 0
+		touches := func(b *ssa.BasicBlock) bool {
+			for _, in := range b.Instrs {
+				if mu, ok := in.(*ssa.MapUpdate); ok && fieldVar(mu.Map) == fld {
+					return true
+				}
+				if cc, ok := isBuiltinCall(in, "delete"); ok && fieldVar(cc.Args[0]) == fld {
+					return true
+				}
+				if ci, ok := in.(ssa.CallInstruction); ok {
+					if sf := calleeFn(ci.Common()); sf != nil && sf.Blocks != nil && c41IsMethodOf(sf, x.mgr) {
+						hit := false
+						for _, g := range withClosures([]*ssa.Function{sf}) {
+							allInstrs(g, false, func(_ *ssa.Function, in2 ssa.Instruction) {
+								if mu, ok := in2.(*ssa.MapUpdate); ok && fieldVar(mu.Map) == fld {
+									hit = true
+								}
+								if cc, ok := isBuiltinCall(in2, "delete"); ok && fieldVar(cc.Args[0]) == fld {
+									hit = true
+								}
+							})
+						}
+						if hit {
+							return true
+						}
+					}
+				}
+			}
+			return false
+		}
+		for _, f := range withClosures(p.methodsOf(c44Pkg, "flowtableExclusionManager")) {
+			var stores []*ssa.MapUpdate
+			allInstrs(f, false, func(_ *ssa.Function, in ssa.Instruction) {
+				if mu, ok := in.(*ssa.MapUpdate); ok && fieldVar(mu.Map) == fld {
+					stores = append(stores, mu)
+				}
+			})
+			if len(stores) == 0 {
+				continue
+			}
+			// message address fields the stored values are built from
+			addr := map[*types.Var]bool{}
+			for _, mu := range stores {
+				c44BackSlice(mu.Value, func(v ssa.Value) {
+					if fv := c41ProtoSliceField(v); fv != nil {
+						addr[fv] = true
+					}
+				})
+			}
+			fromAddrs := func(cond ssa.Value) bool {
+				hit := false
+				c44BackSlice(cond, func(v ssa.Value) {
+					if fv := c41ProtoSliceField(v); fv != nil && addr[fv] {
+						hit = true
+					}
+				})
+				return hit
+			}
+			key := fmt.Sprintf("C41.refresh/%s/%s", fnName(f), fld.Name())
+			edges, bad := 0, ""
+			for _, b := range f.Blocks {
+				ifi, ok := b.Instrs[len(b.Instrs)-1].(*ssa.If)
+				if !ok || len(b.Succs) != 2 || b.Succs[0] == b.Succs[1] {
+					continue
+				}
+				for k, s := range b.Succs {
+					cnd, pol := stripNot(ifi.Cond, k == 0)
+					if !needs(cnd, pol) {
+						continue
+					}
+					reach := blockReach(s)
+					hasStore := false
+					for _, mu := range stores {
+						if mu.Block() == s || reach[mu.Block()] {
+							hasStore = true
+						}
+					}
+					if !hasStore {
+						continue
+					}
+					edges++
+					// every path from s to a return crosses a touch of fld
+					seen := map[*ssa.BasicBlock]bool{}
+					st := []*ssa.BasicBlock{s}
+					for len(st) > 0 && bad == "" {
+						cur := st[len(st)-1]
+						st = st[:len(st)-1]
+						if seen[cur] {
+							continue
+						}
+						seen[cur] = true
+						if touches(cur) || isPanicBlock(cur) {
+							continue
+						}
+						switch t := cur.Instrs[len(cur.Instrs)-1].(type) {
+						case *ssa.Return:
+							bad = fmt.Sprintf("after `%s` is found %v, the return at %s is reachable without storing into %s", path(cnd), pol, p.Pos(t.Pos()), fld.Name())
+						case *ssa.If:
+							if fromAddrs(t.Cond) {
+								continue
+							}
+							st = append(st, cur.Succs...)
+						default:
+							st = append(st, cur.Succs...)
+						}
+					}
+				}
+			}
+			if edges == 0 {
+				c.Undecided(key, p.Pos(f.Pos()), "%s stores into %s but no branch edge establishing the needs-exclusion predicate leads to the store", fnName(f), fld.Name())
+				continue
+			}
+			n++
+			c.Check(bad == "", key, p.Pos(stores[0].Pos()),
+				"every update of an endpoint that needs exclusion rewrites its entry in "+fld.Name()+" from the message",
+				bad+": an update for an endpoint already in "+fld.Name()+" keeps the previously stored addresses, so a changed or added address of an excluded endpoint never reaches the no-flow-offload set")
+		}
+		if n == 0 {
+			c.Lost("no function stores into %s behind the needs-exclusion predicate", fld.Name())
+		}
+	}
+}
+
+func c41IsMethodOf(f *ssa.Function, named *types.Named) bool {
+	if f.Signature == nil || f.Signature.Recv() == nil {
+		return false
+	}
+	n, _ := derefType(f.Signature.Recv().Type()).(*types.Named)
+	return n != nil && n.Obj() == named.Obj()
+}
+
+// c41ProtoSliceField: v is the address of / a load of a slice-typed field of a
+// felix/proto message (an address list of the endpoint).
+func c41ProtoSliceField(v ssa.Value) *types.Var {
+	var fv *types.Var
+	switch y := v.(type) {
+	case *ssa.FieldAddr:
+		fv = structField(y.X.Type(), y.Field)
+	case *ssa.Field:
+		fv = structField(y.X.Type(), y.Field)
+	}
+	if fv == nil || fv.Pkg() == nil || !strings.HasSuffix(fv.Pkg().Path(), "felix/proto") {
+		return nil
+	}
+	if _, ok := fv.Type().Underlying().(*types.Slice); !ok {
+		return nil
+	}
+	return fv
 }
 
 // mapFields: the map-typed fields of flowtableExclusionManager (the exclusion maps).
